@@ -127,10 +127,15 @@ impl RangeListTable {
                     }
                     Range::StartLength { begin, length } => {
                         let end = match begin {
-                            Address::Constant(begin) => Address::Constant(begin + length),
+                            Address::Constant(begin) => Address::Constant(
+                                begin.checked_add(length).ok_or(Error::ValueTooLarge)?,
+                            ),
                             Address::Symbol { symbol, addend } => Address::Symbol {
                                 symbol,
-                                addend: addend + length as i64,
+                                addend: i64::try_from(length)
+                                    .ok()
+                                    .and_then(|length| addend.checked_add(length))
+                                    .ok_or(Error::ValueTooLarge)?,
                             },
                         };
                         if begin == end {
